@@ -34,9 +34,9 @@ PROP = {
         "a future completing with Ok after the close is accepted (its condition may have been met just before); only a "
         "future that never completes is a violation",
         "in transfer programs no idle timeout is configured, so a peer-side future left pending because the single "
-        "CONNECTION_CLOSE packet never arrived is inconclusive, not a violation; close programs configure 1.5-2.5 s",
+        "CONNECTION_CLOSE packet never arrived is inconclusive, not a violation; close programs configure 8-12 s",
         "an idle timeout that fires before the close point of a close program (process starved) is inconclusive",
-        "watchdog (30 s / 60 s per program) alone is inconclusive",
+        "watchdog (25 s / 45 s per program) alone is inconclusive",
     ],
     "legs": [
         {"name": "plain", "build": "plain", "pkg": "vsec", "cmd": "c16", "shards": 16,
